@@ -14,6 +14,8 @@ CONSTANTS
   MaxPush = 2
   QueueBound = 4
   PreEv = 0
+  FlushFaults = TRUE
+  PreTmp = 0
   MaxDumps = 3
   PreDumps = 0
   MaxIds = 0
